@@ -164,6 +164,52 @@ def hdr_variants(name, inp):
     return out
 
 
+def hdr_variants_any(inp):
+    """the same input with other values in the header octets routing does not look at (by discriminator octet)"""
+    out = []
+    if len(inp) >= 3 and inp[0] == 0x7E:
+        for v in (0x04, 0x10, 0xF7):
+            if inp[1] != v: out.append(inp[:1] + [v] + inp[2:])
+    elif len(inp) >= 4 and inp[0] == 0x2E:
+        for a, b in ((5, 7), (0xFE, 0x41)):
+            out.append(inp[:1] + [a, b] + inp[3:])
+    return out
+
+
+def _enc_slot(val, ts):
+    return ([val["len"]] if ts["lsz"] == 1 else [val["len"] >> 8, val["len"] & 255] if ts["lsz"] == 2 else []) + val["v"][:(val["len"] if ts["lsz"] else len(val["v"]))]
+
+
+def plain_minimal(name):
+    """octets of the minimal instance of a message (mandatory part only)"""
+    t = TBL[name]; mv = minimal_value(name)
+    return [x for val, ts in zip(mv["mand"], [q for q in t["slots"] if q["mand"]]) for x in _enc_slot(val, ts)]
+
+
+def container_slots(name):
+    """names of the elements of a message that carry another message or an arbitrary octet string of up to 64 KiB"""
+    return [s["name"] for s in TBL[name]["slots"] if s["lsz"] == 2 and s["data"] == "buf" and s["max"] >= 65535
+            and any(k in s["name"] for k in ("Container", "EAP"))]
+
+
+def with_container(name, sname, inner, fixed=0):
+    """minimal instance of `name` whose element `sname` (mandatory or optional) carries `inner`; every one-octet mandatory V
+    element after the header is set to `fixed` (payload container type and the like)"""
+    t = TBL[name]; mv = minimal_value(name); nh = len(header(name)); out = []
+    mslots = [q for q in t["slots"] if q["mand"]]
+    for k, (val, ts) in enumerate(zip(mv["mand"], mslots)):
+        if ts["name"] == sname:
+            out += [len(inner) >> 8, len(inner) & 255] + inner
+        elif k >= nh and ts["lsz"] == 0 and ts["max"] == 1:
+            out += [fixed]
+        else:
+            out += _enc_slot(val, ts)
+    s = next(q for q in t["slots"] if q["name"] == sname)
+    if not s["mand"]:
+        out += [s["iei"], len(inner) >> 8, len(inner) & 255] + inner
+    return out
+
+
 def confirm_by_tlc(c, drv, case, trace_module, cls, context=()):
     """re-run one case in a fresh driver process - alone, and if that does not reproduce, after the cases that
     preceded it (the driver interleaves a call on the previous case's message, so a mismatch may need that
